@@ -29,7 +29,7 @@ From Coq Require Import Sorting.Sorted.
 From SG Require Import Base.Prelude C20.SeqIdGen C20.SeqId C20.SeqIdOrder C20.SeqIdCodec.
 From SG Require Import C01.ChanCache C01.ChanCacheLists C01.ChanCacheTruth C01.ChanCacheInv C01.ChanCacheStep C01.ChanCacheRead.
 From SG Require Import C01.Merge C01.MergeProofs C01.Visible C01.VisiblePaging.
-From SG Require Import C01.VisibleTok C01.VisibleResume C01.ChangesFeed C01.ChangesFeedProofs C01.MergePrefix C01.Notify.
+From SG Require Import C01.VisibleTok C01.VisibleResume C01.ChangesFeed C01.ChangesFeedProofs C01.MergePrefix C01.Notify C01.Dedup.
 Open Scope N_scope.
 
 (* ---------- layer 1: the per-channel cache ---------- *)
@@ -449,6 +449,41 @@ Theorem C01_cache_adds_are_notified : forall active seq chs c,
   In c active /\ In c (fst (add_to_cache_all active seq chs)).
 Proof. exact cache_adds_are_notified. Qed.
 Print Assumptions C01_cache_adds_are_notified.
+
+(* ---------- deduplicated mutations: what DocChanged reconstructs from recent_sequences ---------- *)
+(* every entry DocChanged hands on for a document mutation is addressed to the document's OWN
+   collection (a channel is identified by collection id + name: an entry without it would be cached
+   for, and wake the listeners of, a channel of another collection) *)
+Theorem C01_dedup_keeps_collection : forall coll doc sd next skipped x,
+  In x (flat_map to_caches (doc_changed coll doc sd next skipped)) -> fst (fst x) = coll.
+Proof. exact dedup_keeps_collection. Qed.
+Print Assumptions C01_dedup_keeps_collection.
+
+(* a removal whose own mutation the caching feed deduplicated (its sequence is only listed in
+   recent_sequences, still expected by the cache or already skipped) is reconstructed and reaches the
+   cache of the channel the document left, as the removal entry the channel query returns *)
+Theorem C01_dedup_delivers_removal : forall coll doc sd next skipped c s rv,
+  In (c, Some (s, rv)) (sd_chans sd) ->
+  (forall c' rv', In (c', Some (s, rv')) (sd_chans sd) -> rv' = rv) ->
+  In s (sd_recent sd) -> s < current_seq sd ->
+  (next <= s \/ In s skipped) ->
+  In (coll, c, (s, doc, rv, true)) (flat_map to_caches (doc_changed coll doc sd next skipped)).
+Proof. exact dedup_delivers_removal. Qed.
+Print Assumptions C01_dedup_delivers_removal.
+
+Theorem C01_dedup_delivers_current : forall coll doc sd next skipped c,
+  In (c, None) (sd_chans sd) ->
+  In (coll, c, (sd_seq sd, doc, sd_rev sd, false)) (flat_map to_caches (doc_changed coll doc sd next skipped)).
+Proof. exact dedup_delivers_current. Qed.
+Print Assumptions C01_dedup_delivers_current.
+
+(* nothing is invented: the current revision for a channel of the document's map, or a removal the map records *)
+Theorem C01_dedup_sound : forall coll doc sd next skipped coll' c s d rv rm,
+  In (coll', c, (s, d, rv, rm)) (flat_map to_caches (doc_changed coll doc sd next skipped)) ->
+  d = doc /\ ((s = sd_seq sd /\ rv = sd_rev sd /\ exists r, In (c, r) (sd_chans sd)) \/
+              (rm = true /\ exists rv', In (c, Some (s, rv')) (sd_chans sd))).
+Proof. exact dedup_sound. Qed.
+Print Assumptions C01_dedup_sound.
 
 (* ---------- non-vacuity ---------- *)
 Example C01_nonvacuous :
